@@ -3,6 +3,7 @@ import JSight.Tie.CMap
 import JSight.CheckRulesThm
 import JSight.CheckRulesTie
 import JSight.BridgeCRThm
+import JSight.BridgeCR2Short
 /-!
 # C08 — Check's verdict does not depend on the order of the rules (the part that is a theorem)
 
@@ -177,8 +178,10 @@ its inputs (no disagreement after three model repairs). -/
 open BridgeCR in
 /-- the FULL statement (both phases): on every node of the common class (A) never answers `unsupported`, and the two
 models give the same verdict and the same first error code.
-PROVED below for the annotation-reading phase (`C08_models_agree_creation`); the `compileNode` phase is validated at run
-time only (`vh bridge-models`: AGREE on every node compared, DISAGREE is a diff). -/
+PROVED below for the annotation-reading phase (`C08_models_agree_creation`) and — second part — for BOTH phases on
+every node of the class under two decidable hypotheses that every loader-produced node meets
+(`C08_models_agree_partial`); AS STATED it is false on two families of `RNode`s no loader produces
+(`C08_models_agree_full_false`, `C08_models_agree_full_false_ref`). Run time: `vh bridge-models`. -/
 def C08_models_agree_full : Prop :=
   ∀ (n : Compile.RNode) (isProp : Bool), common n = true →
     isUnsupported (aNode n isProp) = false ∧ codeA (aNode n isProp) = codeB (CR.checkRules (crNodeOf n isProp))
@@ -239,6 +242,146 @@ example : common n601 = true ∧ plainKind n601 = true ∧ codeA (aNode n601 fal
   decide +kernel
 example : common nObj = true ∧ isUnsupported (aNode nObj true) = false ∧ codeA (aNode nObj true) = none ∧
     codeB (CR.checkRules (crNodeOf nObj true)) = none := by decide +kernel
+end BridgeEx
+
+
+/-! ### Bridge (A)∩(B), second part: the COMPILE phase (`compileNode` + `CompileAllOf` + the checker's kind compatibility)
+
+`BridgeCR2*.lean`: (B)'s constraint map after the annotation is the explicit function `BridgeCR.mapOf` of (A)'s rule
+list (`foldB`: values, not only presence); `falseConstraints` is (A)'s filter (`fc_mapOf`); then the stages of
+`Compile.basic` (`bEnumPrec`, `bNames`, `bType`, `bAllowed`, `bPairs`, `bMinMax`, `bLens`, `bOptional`, `bFinish`) are
+walked against the steps of `CR.compile` one by one (`or_agree`, `enum_agree`, `prec_agree`, `type_agree`, `tail_plain`,
+`tail_names`, `tail_any`, `pairNum_agree`, `pairNat_agree`, `compat_agree`), with the same error code at every exit. -/
+
+open BridgeCR in
+/-- **C08_models_agree_compile** (both phases, every scalar / object / array node of the common class whose literal
+nodes have no children — `leafOK`, true of every node the loader produces): (A)'s per-node compile — constraint
+creation, then `Compile.basic` stage by stage, then the kind-compatibility part of `Compile.check` — succeeds iff
+`CR.checkRules` succeeds on the translated node, when both fail they fail with the SAME error code (601, 604, 605,
+103, 0, 501, 810, 902–904; 1111, 1103, 1108, 1104, 1117, 1102, 1107, 1114, 1113, 1115, 1112, 102, 1105, 1106, 1109,
+1110, 618, 617, 1101), and (A) never answers `unsupported`. -/
+theorem C08_models_agree_compile (n : Compile.RNode) (isProp : Bool) (h : common n = true) (hp : plainKind n = true)
+    (hw : leafOK n = true) :
+    isUnsupported (aNode n isProp) = false ∧ codeA (aNode n isProp) = codeB (CR.checkRules (crNodeOf n isProp)) :=
+  models_agree_compile n isProp h hp hw
+
+open BridgeCR in
+/-- the same with (B)'s side spelled as verdicts: (A) accepts iff (B) accepts -/
+theorem C08_models_agree_verdict (n : Compile.RNode) (isProp : Bool) (h : common n = true) (hp : plainKind n = true)
+    (hw : leafOK n = true) :
+    (codeA (aNode n isProp)).isNone = isOk (CR.checkRules (crNodeOf n isProp)) := by
+  rw [(models_agree_compile n isProp h hp hw).2]
+  cases CR.checkRules (crNodeOf n isProp) <;> rfl
+
+open BridgeCR in
+/-- **the FULL statement of the first part is false** — on an `RNode` no loader produces: a LITERAL node that has a
+child, with `type: "any"`. (A) counts `n.children` whatever the kind (1106), (B)'s literal node has no children
+(accepted). The node is inside `common` (which does not speak about children); `leafOK` is the missing, decidable,
+hypothesis. Not replayable on the library: the loader never gives a literal node children. -/
+theorem C08_models_agree_full_false : ¬ C08_models_agree_full := by
+  intro hfull
+  have h := (hfull wLeaf false wLeaf_facts.1).2
+  rw [wLeaf_facts.2.2.1, wLeaf_facts.2.2.2] at h
+  exact absurd h (by decide)
+
+open BridgeCR in
+/-- **C08_models_agree_partial** = `C08_models_agree_full` with its two explicit decidable hypotheses, EVERY node of
+the common class (scalar / object / array nodes AND the type shortcuts `@t`, `@a | @b`): `leafOK` (a literal node has no
+children) and `shortOK` (the synthesised rule of a shortcut node has a value, the value of `@t` is a type name) — both
+true of every node the loader produces, both needed (`C08_models_agree_full_false`, `C08_models_agree_full_false_ref`). -/
+theorem C08_models_agree_partial :
+    ∀ (n : Compile.RNode) (isProp : Bool), common n = true → leafOK n = true → shortOK n = true →
+      isUnsupported (aNode n isProp) = false ∧ codeA (aNode n isProp) = codeB (CR.checkRules (crNodeOf n isProp)) :=
+  fun n isProp h hw hs => models_agree_all n isProp h hw hs
+
+open BridgeCR in
+/-- the type-shortcut nodes alone (`@t // {…}`, `@a | @b // {…}`: (B)'s `MixedValueNode`, whose synthesised rule is
+(B)'s initial constraint map) -/
+theorem C08_models_agree_shortcut (n : Compile.RNode) (isProp : Bool) (h : common n = true)
+    (hm : n.kind = Loader.NK.mixed) (hs : shortOK n = true) :
+    isUnsupported (aNode n isProp) = false ∧ codeA (aNode n isProp) = codeB (CR.checkRules (crNodeOf n isProp)) :=
+  models_agree_short n isProp h hm hs
+
+open BridgeCR in
+/-- the second witness against the unrestricted statement: a `@t` node whose synthesised token is `"enum"` -/
+theorem C08_models_agree_full_false_ref :
+    common wRef = true ∧ leafOK wRef = true ∧ shortOK wRef = false ∧
+      codeA (aNode wRef false) ≠ codeB (CR.checkRules (crNodeOf wRef false)) := by
+  refine ⟨wRef_facts.1, wRef_facts.2.1, wRef_facts.2.2.1, ?_⟩
+  rw [wRef_facts.2.2.2.1, wRef_facts.2.2.2.2]
+  decide
+
+open BridgeCR in
+/-- a kinded node of the common class is a scalar / object / array node -/
+theorem plainKind_of_kinded (n : Compile.RNode) (isProp : Bool) (h : common n = true)
+    (hk : (crNodeOf n isProp).kind.isShortcut = false) : plainKind n = true := by
+  unfold plainKind
+  cases hkind : n.kind <;> try rfl
+  exfalso
+  simp only [common, Bool.and_eq_true] at h
+  obtain ⟨⟨⟨hs, _⟩, _⟩, _⟩ := h
+  obtain ⟨nk, hnk⟩ := Option.isSome_iff_exists.1 hs
+  have hcr : (crNodeOf n isProp).kind = nk := by unfold crNodeOf; rw [hnk]; rfl
+  rw [hcr] at hk
+  unfold nkindOf at hnk
+  simp only [hkind] at hnk
+  cases hr : n.rules with
+  | nil => simp [hr] at hnk
+  | cons r rest =>
+    simp only [hr] at hnk
+    split at hnk
+    · cases hnk; simp [NKind.isShortcut] at hk
+    · split at hnk
+      · cases hnk; simp [NKind.isShortcut] at hk
+      · cases hnk
+
+open BridgeCR in
+/-- **C08_spec_characterises_compile, unconditional**: on kinded nodes of the common class (B)'s SPECIFICATION
+characterises when (A)'s creation + compile + compatibility stage succeeds — `C08_models_agree_compile` through
+`C08_check_iff_kinded`; no hypothesis about the other model is left (only `leafOK`, see `C08_models_agree_full_false`) -/
+theorem C08_spec_characterises_compile_proved (n : Compile.RNode) (isProp : Bool)
+    (h : common n = true) (hw : leafOK n = true) (hk : (crNodeOf n isProp).kind.isShortcut = false) :
+    (codeA (aNode n isProp)).isNone = specOK (crNodeOf n isProp) := by
+  rw [← C08_check_iff_kinded _ hk, (models_agree_compile n isProp h (plainKind_of_kinded n isProp h hk) hw).2]
+  cases checkRules (crNodeOf n isProp) <;> rfl
+
+namespace BridgeEx
+open BridgeCR Compile
+/-- `"a" // {or: ["@x", "@y"], optional: true}` outside an object: 1101 in both (through the `or` branch) -/
+def nOr : RNode := { kind := .lit, children := [], keys := [], value := some (sb "\"a\""),
+                     rules := [r "or" "[\"@x\", \"@y\"]", r "optional" "true"] }
+/-- `5 // {type: "integer", min: 2, max: 1, exclusiveMaximum: true}`: 618 in both -/
+def n618 : RNode := { kind := .lit, children := [], keys := [], value := some (sb "5"),
+                      rules := [r "type" "\"integer\"", r "min" "2", r "max" "1", r "exclusiveMaximum" "true"] }
+/-- `"x" // {type: "uuid", nullable: false, const: true}`: accepted by both -/
+def nUuid : RNode := { kind := .lit, children := [], keys := [], value := some (sb "\"x\""),
+                       rules := [r "type" "\"uuid\"", r "nullable" "false", r "const" "true"] }
+/-- non-vacuity of `C08_models_agree_compile` / `_partial` / `C08_spec_characterises_compile_proved`: nodes meeting
+all hypotheses, on both sides of the verdict, through the `or`, the pair and the format branches -/
+example : common nOK = true ∧ plainKind nOK = true ∧ leafOK nOK = true ∧ (crNodeOf nOK false).kind.isShortcut = false := by
+  decide +kernel
+example : common nOr = true ∧ plainKind nOr = true ∧ leafOK nOr = true ∧ codeA (aNode nOr false) = some 1101 ∧
+    codeB (CR.checkRules (crNodeOf nOr false)) = some 1101 ∧ codeA (aNode nOr true) = none := by decide +kernel
+example : common n618 = true ∧ plainKind n618 = true ∧ leafOK n618 = true ∧ codeA (aNode n618 false) = some 618 ∧
+    codeB (CR.checkRules (crNodeOf n618 false)) = some 618 := by decide +kernel
+example : common nUuid = true ∧ plainKind nUuid = true ∧ leafOK nUuid = true ∧ codeA (aNode nUuid false) = none ∧
+    codeB (CR.checkRules (crNodeOf nUuid false)) = none := by decide +kernel
+example : common nObj = true ∧ plainKind nObj = true ∧ leafOK nObj = true := by decide +kernel
+/-- `@t // {optional: true, min: 1}`: 1102 in both; `@a | @b // {nullable: true}` as a property: accepted by both -/
+def nRef : RNode := { kind := .mixed, children := [], keys := [], value := none,
+                      rules := [{ name := sb "type", gen := true, val := some (sb "@t"), pos := 0, npos := 0 },
+                                r "optional" "true", r "min" "1"] }
+def nOrS : RNode := { kind := .mixed, children := [], keys := [], value := none,
+                      rules := [{ name := sb "or", gen := true, val := some (sb "@a | @b"), pos := 0, npos := 0 },
+                                r "nullable" "true"] }
+example : common nRef = true ∧ leafOK nRef = true ∧ shortOK nRef = true ∧ nRef.kind = Loader.NK.mixed ∧
+    codeA (aNode nRef true) = some 1102 ∧ codeB (CR.checkRules (crNodeOf nRef true)) = some 1102 := by decide +kernel
+example : common nOrS = true ∧ leafOK nOrS = true ∧ shortOK nOrS = true ∧ nOrS.kind = Loader.NK.mixed ∧
+    codeA (aNode nOrS true) = none ∧ codeB (CR.checkRules (crNodeOf nOrS true)) = none := by decide +kernel
+example : shortOK nOK = true ∧ shortOK n618 = true ∧ shortOK nOr = true := by decide +kernel
+/-- the instance of the theorem on one of them -/
+example : codeA (aNode n618 false) = codeB (CR.checkRules (crNodeOf n618 false)) :=
+  (C08_models_agree_compile n618 false (by decide +kernel) (by decide +kernel) (by decide +kernel)).2
 end BridgeEx
 
 end Props.C08
